@@ -80,7 +80,7 @@ pub fn run(ctx: &Ctx) -> i32 {
     );
 
     // accepted text comes back verbatim from a built package's FILECAPS
-    let dir = std::env::temp_dir().join(format!("vcheck-c19-{}", std::process::id()));
+    let dir = crate::ctx::run_dir().join("c19");
     let _ = std::fs::create_dir_all(&dir);
     let src = dir.join("f");
     std::fs::write(&src, b"x").expect("temp");
